@@ -108,29 +108,53 @@ Proof.
 Qed.
 Print Assumptions faults_stay_inside_their_flow.
 
-(* the tie: what the translator read in udp_pipe.rs / udp_forwarder.rs *)
 (* towards a SOCKS5 upstream (one association per client source, shared by its destinations): after every history of
-   datagrams and closes the multiplexer is alive and every live pair still has its destination among the peers of its
-   source's association, so the close of one pair never takes the association away from another *)
+   datagrams (sent, or refused by the association's socket), closes, read errors on an association's socket and expiry
+   ticks that fall into the set-up of a flow, the multiplexer is alive and every live pair still has its destination
+   among the peers of its source's association: a datagram of a live pair is never met with NotFound, and neither the
+   close of one pair nor the failure of one association takes anything away from another *)
+Definition socks_code : kflags :=
+  {| f_records := SOCKS_ASSOCIATION_RECORDS_EVERY_PEER; f_keyed := SOCKS_READ_ERROR_CLOSES_THE_FLOWS;
+     f_drops := SOCKS_SEND_ERROR_DROPS_DATAGRAM; f_beside := UDP_TICK_RUNS_BESIDE_THE_DIRECTIONS |}.
+
 Theorem socks_associations_follow_the_live_pairs :
   forall ops,
-    k_dead (krun SOCKS_ASSOCIATION_RECORDS_EVERY_PEER ops) = false
-    /\ forall src dst, In (src, dst) (k_flows (krun SOCKS_ASSOCIATION_RECORDS_EVERY_PEER ops)) ->
-         exists ps, klookup src (k_assocs (krun SOCKS_ASSOCIATION_RECORDS_EVERY_PEER ops)) = Some ps /\ In dst ps.
+    k_dead (krun socks_code ops) = false
+    /\ forall src dst, In (src, dst) (k_flows (krun socks_code ops)) ->
+         exists ps, klookup src (k_assocs (krun socks_code ops)) = Some ps /\ In dst ps.
 Proof. intros ops. exact (krun_inv ops). Qed.
 Print Assumptions socks_associations_follow_the_live_pairs.
 
+(* a later datagram on a pair whose association failed starts a fresh association; the other source is not touched *)
+Example ex_read_error_then_fresh_flow :
+  let s := krun socks_code [KDgram (1, 10); KDgram (2, 10); KReadErr 1; KDgram (2, 10); KDgram (1, 10)] in
+  k_dead s = false /\ klookup 1 (k_assocs s) = Some [10] /\ klookup 2 (k_assocs s) = Some [10].
+Proof. repeat split; reflexivity. Qed.
+
 (* when further destinations are not recorded, the close of the first pair ends the multiplexer at the next datagram of the second *)
 Example ex_unrecorded_peer_ends_the_multiplexer :
-  k_dead (krun false [KDgram (1, 10); KDgram (1, 20); KClose (1, 10); KDgram (1, 20)]) = true
-  /\ k_dead (krun true [KDgram (1, 10); KDgram (1, 20); KClose (1, 10); KDgram (1, 20)]) = false.
+  k_dead (krun {| f_records := false; f_keyed := true; f_drops := true; f_beside := true |}
+               [KDgram (1, 10); KDgram (1, 20); KClose (1, 10); KDgram (1, 20)]) = true
+  /\ k_dead (krun kfixed [KDgram (1, 10); KDgram (1, 20); KClose (1, 10); KDgram (1, 20)]) = false.
 Proof. split; reflexivity. Qed.
 
+(* each of the other three flags is needed as well: a read error whose closes the pipe cannot match leaves the pair behind
+   and its next datagram ends the multiplexer; a refused send that is returned as an error ends it at once; a timer that
+   drops the direction in the middle of an association's set-up leaves a pair without association *)
+Example ex_each_flag_is_needed :
+  k_dead (krun {| f_records := true; f_keyed := false; f_drops := true; f_beside := true |} [KDgram (1, 10); KReadErr 1; KDgram (1, 10)]) = true
+  /\ k_dead (krun {| f_records := true; f_keyed := true; f_drops := false; f_beside := true |} [KDgram (1, 10); KRefused (1, 10)]) = true
+  /\ k_dead (krun {| f_records := true; f_keyed := true; f_drops := true; f_beside := false |} [KCut (1, 10); KDgram (1, 10)]) = true
+  /\ k_dead (krun kfixed [KDgram (1, 10); KReadErr 1; KDgram (1, 10); KRefused (1, 10); KCut (2, 10); KDgram (2, 10)]) = false.
+Proof. repeat split; reflexivity. Qed.
+
+(* the tie: what the translator read in udp_pipe.rs / udp_forwarder.rs / socks5_forwarder.rs *)
 Theorem code_facts :
   UDP_TICK_CLOSES_REVERSED_KEY = true /\ UDP_TICK_EXPIRES_IDLE_LONGER_THAN_TIMEOUT = true
   /\ UDP_FAILED_OPEN_FORGETS_FLOW = true /\ UDP_DONE_AND_CLOSE_AS_MODELLED = true
   /\ UDP_SEND_ERROR_DROPS_DATAGRAM = true /\ UDP_FORWARDER_TABLE_AS_MODELLED = true
-  /\ UDP_READ_ERRORS_REMOVE_THE_FLOW = true /\ SOCKS_UDP_READ_DOES_NOT_WAIT = true /\ SOCKS_ASSOCIATION_RECORDS_EVERY_PEER = true.
+  /\ UDP_READ_ERRORS_REMOVE_THE_FLOW = true /\ SOCKS_UDP_READ_DOES_NOT_WAIT = true /\ SOCKS_ASSOCIATION_RECORDS_EVERY_PEER = true
+  /\ SOCKS_READ_ERROR_CLOSES_THE_FLOWS = true /\ SOCKS_SEND_ERROR_DROPS_DATAGRAM = true /\ UDP_TICK_RUNS_BESIDE_THE_DIRECTIONS = true.
 Proof. repeat split; exact eq_refl. Qed.
 Print Assumptions code_facts.
 
